@@ -51,6 +51,9 @@ CONTENTS = {
 PATHS = {'main': 'policy.yaml', 'd1/a': 'd1/a.yaml', 'd1/b': 'd1/b.yaml',
          'd2/a': 'd2/a.yaml'}
 WORLDS = {
+    'w4full': {'files': ['main', 'd1/a', 'd1/b', 'd2/a'],
+               'contents': {'main': ['c1', 'c2', 'c0'], 'd1/a': ['c1', 'c2'],
+                            'd1/b': ['c1', 'c0'], 'd2/a': ['c1', 'c0']}},
     'w2': {'files': ['main', 'd1/a'], 'contents': {'main': ['c1', 'c2', 'c0'],
                                                    'd1/a': ['c1', 'c0']}},
     'w3': {'files': ['main', 'd1/a', 'd2/a'],
@@ -61,10 +64,11 @@ WORLDS = {
                         'd1/b': ['c1', 'c0'], 'd2/a': ['c1', 'c0']}},
 }
 BOUNDS = {
-    'quick': [('w3', 4, False), ('w2', 6, True)],
-    'thorough': [('w2', 30, True), ('w3', 6, True), ('w4', 5, False)],
+    'quick': [('w3', 4, False), ('w2', 6, True), ('w4full', 3, False)],
+    'thorough': [('w2', 30, True), ('w3', 6, True), ('w4', 5, False),
+                 ('w4full', 5, True)],
 }
-MOTIF_BOUND = {'quick': 2, 'thorough': 3}
+MOTIF_BOUND = {'quick': 3, 'thorough': 5}
 
 
 def bound(tier):
@@ -84,10 +88,15 @@ class System:
         self.spec = WORLDS[wname]
         self.w = world.FileWorld()
         self.w.mkdir('d1')
-        self.w.mkdir('d2')
+        # d2 is configured but does not exist until a file is written into
+        # it: a policy directory that appears later
         self.content = {f: None for f in self.spec['files']}
         if init == 'init:main':
             self._write('main', 'c1')
+        elif init == 'init:full':
+            # every file of the world present from the start
+            for f in self.spec['files']:
+                self._write(f, 'c1')
         self.enf = self.make_enforcer()
 
     def make_enforcer(self):
@@ -168,6 +177,9 @@ class System:
                 files[f] = None
         dirs = {}
         for d in ('d1', 'd2'):
+            if not os.path.isdir(self.w.path(d)):
+                dirs[d] = None
+                continue
             t = os.path.getmtime(self.w.path(d))
             dirs[d] = t
             times.add(t)
@@ -176,7 +188,8 @@ class System:
         form = {
             'files': {f: (None if v is None else [v[0], rank[v[1]]])
                       for f, v in files.items()},
-            'dirs': {d: rank[t] for d, t in dirs.items()},
+            'dirs': {d: (None if t is None else rank[t])
+                     for d, t in dirs.items()},
             'enf': rerank(fp, rank),
         }
         return histbfs.digest(form)
@@ -354,7 +367,10 @@ def explore(tier, seed, pmap):
     tot_states = tot_trans = 0
     for wname, depth, force in BOUNDS[tier]:
         roots = []
-        for init in ('init:main', 'init:nomain'):
+        inits = ('init:main', 'init:nomain')
+        if wname.endswith('full'):
+            inits = ('init:full',)
+        for init in inits:
             s = System(wname, init)
             roots.append(([init], s.canon()))
             s.close()
